@@ -33,6 +33,8 @@ type Req struct {
 	Item
 	PauseUs int `json:"pause_us"`
 	Lane    int `json:"lane"`
+	Ctx     int `json:"ctx,omitempty"` // 0 context.Background, 1 cancelled before the call, 2 deadline CtxUs after the call starts
+	CtxUs   int `json:"ctx_us,omitempty"`
 }
 
 // Scen is one generated (or replayed) scenario.
@@ -49,6 +51,7 @@ type Scen struct {
 	Reqs        []Req   `json:"reqs"`
 	ConnPat     [][]int `json:"conn_pat"` // index 1..NRes
 	DelPat      [][]int `json:"del_pat"`
+	CommitPat   [][]int `json:"commit_pat,omitempty"` // only consumed by code that deletes inside a transaction
 }
 
 type Answer struct {
@@ -57,6 +60,11 @@ type Answer struct {
 	St       int    `json:"st"`
 	Err      string `json:"err"`
 }
+
+// accepted: answered PhasetwoCommitted; refused: a failure status together with an error (the
+// request was not taken over, e.g. its context was done) — anything else is a wrong answer.
+func (a Answer) accepted() bool { return a.Returned && a.St == 5 && a.Err == "" }
+func (a Answer) refused() bool  { return a.Returned && a.St != 5 && a.Err != "" }
 
 type Result struct {
 	Scen       Scen     `json:"scen"`
@@ -128,7 +136,7 @@ func runScenarioSlack(sc Scen, slack time.Duration) *Result {
 	initOnce.Do(undomysql.InitUndoLogManager)
 	res := &Result{Scen: sc}
 	iv := time.Duration(sc.Cfg.IntervalMs) * time.Millisecond
-	w := &world{tables: map[int][]Item{}, connPat: map[int][]int{}, delPat: map[int][]int{}}
+	w := &world{tables: map[int][]Item{}, connPat: map[int][]int{}, delPat: map[int][]int{}, commitPat: map[int][]int{}}
 	w.xids = make([]string, sc.NXid+2)
 	for i := 1; i < len(w.xids); i++ {
 		w.xids[i] = xidString(i)
@@ -139,6 +147,9 @@ func runScenarioSlack(sc Scen, slack time.Duration) *Result {
 	for r := 1; r <= sc.NRes; r++ {
 		w.connPat[r] = append([]int{}, sc.ConnPat[r]...)
 		w.delPat[r] = append([]int{}, sc.DelPat[r]...)
+		if r < len(sc.CommitPat) {
+			w.commitPat[r] = append([]int{}, sc.CommitPat[r]...)
+		}
 	}
 	mgr := seatasql.VerifNewATSourceManager(seatasql.AsyncWorkerConfig{
 		BufferLimit:            sc.Cfg.BufferLimit,
@@ -189,8 +200,17 @@ func runScenarioSlack(sc Scen, slack time.Duration) *Result {
 				q := sc.Reqs[i]
 				time.Sleep(time.Duration(q.PauseUs) * time.Microsecond)
 				w.log(Ev{K: "S", I: i})
-				st, err := mgr.BranchCommit(context.Background(), rm.BranchResource{
+				ctx, cancel := context.Background(), func() {}
+				switch q.Ctx {
+				case 1:
+					ctx, cancel = context.WithCancel(ctx)
+					cancel()
+				case 2:
+					ctx, cancel = context.WithTimeout(ctx, time.Duration(q.CtxUs)*time.Microsecond)
+				}
+				st, err := mgr.BranchCommit(ctx, rm.BranchResource{
 					ResourceId: resID(q.R), Xid: w.xids[q.X], BranchId: q.B})
+				cancel()
 				e := ""
 				if err != nil {
 					e = err.Error()
@@ -218,7 +238,7 @@ func runScenarioSlack(sc Scen, slack time.Duration) *Result {
 	// expected final table: rows of returned requests on valid, eventually registered resources are gone
 	gone := map[Item]bool{}
 	for i, q := range sc.Reqs {
-		if res.Answers[i].Returned && q.R >= 1 && q.R <= sc.NRes && sc.ResMode[q.R] != 2 {
+		if res.Answers[i].accepted() && q.R >= 1 && q.R <= sc.NRes && sc.ResMode[q.R] != 2 {
 			gone[q.Item] = true
 		}
 	}
@@ -232,7 +252,7 @@ func runScenarioSlack(sc Scen, slack time.Duration) *Result {
 	// is still being retried while the table already looks final)
 	want := map[Item]int{}
 	for i, q := range sc.Reqs {
-		if res.Answers[i].Returned && gone[q.Item] {
+		if res.Answers[i].accepted() && gone[q.Item] {
 			want[q.Item]++
 		}
 	}
@@ -261,8 +281,8 @@ func runScenarioSlack(sc Scen, slack time.Duration) *Result {
 		return true, n
 	}
 	// beyond the deadline keep waiting only while the database still sees activity (loaded machine),
-	// never more than 20 s
-	hard := start.Add(limit + 20*time.Second)
+	// never more than twice the slack
+	hard := start.Add(limit + 2*slack)
 	lastN, lastChange := -1, time.Now()
 	for {
 		ok, n := settled()
@@ -316,7 +336,7 @@ func runScenarioSlack(sc Scen, slack time.Duration) *Result {
 		submitted[q.Item] = true
 	}
 	for i, a := range res.Answers {
-		if !a.Returned || a.St != 5 || a.Err != "" {
+		if !a.accepted() && !a.refused() {
 			res.NotCommitted = append(res.NotCommitted, i)
 		}
 	}
